@@ -160,6 +160,7 @@ def check_structure(rep, root, elements, diags, case, what):
 
 
 def run(rep, tier, seed):
+    rep.level = "fault_enumeration"
     rng = random.Random(seed * 1000003 + 6)
     quick = tier == "quick"
     n = 6000 if quick else 120000
